@@ -737,14 +737,51 @@ def r03_1(ctx):
     an = ctx.an(b)
     key = 'draw_target::build_blend_proc'
     ms = [m for m in matches(ctx, b, 'BlendMode') if m.scrut == ('param', 1)]
-    if not ctx.check(len(ms) == 1, R, key + '|match', b.loc(), 'one match on mode', 'expected one match on the mode parameter, found %d (fail closed)' % len(ms)):
+    adt0 = ctx.F.adt('raqote::draw_target::BlendMode')
+    if not ms and adt0:
+        # the same dispatch as a table: [T::build::<X0>, T::build::<X1>, ..][mode as usize](), one entry per variant in
+        # discriminant order
+        tbl_ok = False
+        n_t = 0
+        for rt in shared.ret_terms(ctx, b):
+            rt = strip_all(rt)
+            if not (rt[0] == 'call' and not isinstance(rt[1], str) and rt[1][0] == 'ind' and not rt[2]):
+                continue
+            ind = strip_all(rt[1][1])
+            if ind[0] != 'index':
+                continue
+            ix = strip_casts(ind[2], ('IntToInt',))
+            arr = ind[1]
+            while arr[0] in ('deref', 'ref'):
+                arr = arr[1]
+            if arr[0] == 'mem':
+                arr = shared.resolve_mem(an, arr)
+            if not (ix[0] == 'discr' and strip_all(ix[1]) == ('param', 1) and arr[0] == 'agg' and arr[1] == 'array' and len(arr[4]) == len(adt0['variants'])):
+                continue
+            tbl_ok = True
+            byidx = {v.get('idx'): v['name'] for v in adt0['variants']}
+            for i3, (_nm, e) in enumerate(arr[4]):
+                while e[0] == 'cast':
+                    e = e[3]
+                want_v = byidx.get(i3)
+                got = e[3][1] if e[0] == 'fn' and len(e[3]) > 1 else None
+                okv = e[0] == 'fn' and e[1].endswith('Blender::build') and got == 'sw_composite::blend::' + str(want_v)
+                ctx.check(okv, R, key + '|arm ' + str(want_v), b.loc(), '%s -> build::<blend::%s>' % (want_v, want_v), 'BlendMode::%s (table entry %d) is wired to %s, expected sw_composite::blend::%s' % (want_v, i3, got, want_v))
+                n_t += 1
+        if tbl_ok:
+            ctx.check(n_t == len(adt0['variants']), R, key + '|all variants', b.loc(), '%d table entries for %d variants' % (n_t, len(adt0['variants'])), '%d table entries for %d BlendMode variants' % (n_t, len(adt0['variants'])))
+            ctx.floor(R, 'BlendMode arms', n_t, 28)
+    if not ms and adt0 and 'tbl_ok' in dir() and tbl_ok:
+        pass
+    elif not ctx.check(len(ms) == 1, R, key + '|match', b.loc(), 'one match on mode', 'expected one match on the mode parameter, found %d (fail closed)' % len(ms)):
         return
-    m = ms[0]
-    ctx.check(m.otherwise is None, R, key + '|no wildcard', b.loc(), 'no live wildcard arm', 'the blend dispatch has a live wildcard arm')
+    m = ms[0] if ms else None
+    if m is not None:
+        ctx.check(m.otherwise is None, R, key + '|no wildcard', b.loc(), 'no live wildcard arm', 'the blend dispatch has a live wildcard arm')
     adt = ctx.F.adt('raqote::draw_target::BlendMode')
     nvar = len(adt['variants']) if adt else 0
     n = 0
-    for v, tgt in sorted(m.arms.items()):
+    for v, tgt in sorted(m.arms.items()) if m is not None else []:
         region = arm_region(an.cfg, m.bb, tgt)
         cs = [(bi, an.callee_info(bi)) for bi, d, ct in calls_in(ctx, b, region) if d and d.endswith('Blender::build')]
         ok = len(cs) == 1
@@ -755,8 +792,9 @@ def r03_1(ctx):
             ok = got == 'sw_composite::blend::' + v
         ctx.check(ok, R, key + '|arm ' + v, b.loc(), '%s -> build::<blend::%s>' % (v, v), 'BlendMode::%s is wired to %s, expected sw_composite::blend::%s' % (v, got, v))
         n += 1
-    ctx.check(n == nvar and nvar > 0, R, key + '|all variants', b.loc(), '%d arms for %d variants' % (n, nvar), '%d arms for %d BlendMode variants' % (n, nvar))
-    ctx.floor(R, 'BlendMode arms', n, 28)
+    if m is not None:
+        ctx.check(n == nvar and nvar > 0, R, key + '|all variants', b.loc(), '%d arms for %d variants' % (n, nvar), '%d arms for %d BlendMode variants' % (n, nvar))
+        ctx.floor(R, 'BlendMode arms', n, 28)
     # Blender impls: build::<T>() returns the matching row proc instantiated at T
     want = {'BlendRow': 'blend_row', 'BlendRowMask': 'blend_row_mask', 'BlendRowMaskClip': 'blend_row_mask_clip'}
     cnt = 0
@@ -780,6 +818,21 @@ def r03_1(ctx):
     ctx.floor(R, 'Blender impls', cnt, 3)
 
 
+def top_clip_mask_term(t):
+    """t denotes the (optional) mask of the top clip entry: clip_stack.last()'s `.mask`, possibly re-borrowed with
+    as_ref()/as_deref() and possibly reached through and_then (beta-reduced)"""
+    t = strip_all(t)
+    for _ in range(6):
+        if t[0] in ('ref', 'deref'):
+            t = strip_all(t[1])
+        elif t[0] == 'call' and isinstance(t[1], str) and t[1].split('::')[-1] in ('as_ref', 'as_deref', 'as_mut', 'as_deref_mut') and len(t[2]) == 1:
+            t = strip_all(t[2][0])
+        else:
+            break
+    r, nm = field_path(t)
+    return t[0] == 'field' and nm[-1:] == ['mask'] and (t[3] or '').endswith('Clip') and is_call(r, '::last')
+
+
 def r03_2(ctx):
     """blitter selection table in choose_blitter"""
     R = 'R03.2'
@@ -798,6 +851,16 @@ def r03_2(ctx):
     }
     seen = {}
     n = 0
+    # choose_blitter(mask, clip_mask: Option<&[u8]>, ..): every caller must pass the mask of the top clip entry
+    clip_mask_param = False
+    if (b.locals[P_CS].get('ty') or '').startswith('std::option::Option<&'):
+        sites = []
+        for q2, b2 in ctx.F.bodies.items():
+            for bi2, d2, ct2 in calls_in(ctx, b2):
+                if d2 == DT + 'choose_blitter':
+                    sites.append((b2, bi2, ct2))
+        clip_mask_param = bool(sites) and all(top_clip_mask_term(ct2[2][P_CS - 1]) for b2, bi2, ct2 in sites)
+        ctx.check(clip_mask_param, R, key + '|clip mask argument', b.loc(), 'every caller passes clip_stack.last().mask', 'choose_blitter takes the clip mask as a parameter but a caller does not pass the mask of the top clip entry')
     for bi, k2, s in b.statements():
         if s['k'] != 'assign' or s['rv']['k'] != 'agg' or not s['rv'].get('adt', '').startswith('raqote::blitter::Shader') or s['rv']['adt'].endswith('Storage'):
             continue
@@ -816,6 +879,11 @@ def r03_2(ctx):
             if scr == ('param', P_M) and v in ('Some', 'None'):
                 has_mask = (v == 'Some')
             if nm[-1:] == ['mask'] and v == 'Some' and is_call(r, '::last'):
+                has_clipmask = True
+            if v == 'Some' and top_clip_mask_term(scr):
+                has_clipmask = True
+            # the top clip's mask handed in by the caller instead of the whole stack (the call site is checked below)
+            if v == 'Some' and strip_all(scr) == ('param', P_CS) and clip_mask_param:
                 has_clipmask = True
         # the mask presence test reads the tuple built from the mask parameter
         srcover = None
@@ -846,7 +914,8 @@ def r03_2(ctx):
             c = strip_all(f['clip'])
             D = Deps(an)
             D.closure(c)
-            okc = any(x[0] == 'field' and x[2] == 'mask' and (x[3] or '').endswith('Clip') for x in D.visited) and any(is_call(x, '::last') for x in D.visited)
+            okc = (any(x[0] == 'field' and x[2] == 'mask' and (x[3] or '').endswith('Clip') for x in D.visited) and any(is_call(x, '::last') for x in D.visited)) \
+                or (clip_mask_param and any(x == ('param', P_CS) for x in D.visited))
             ctx.check(okc, R, sk + '|clip', b.loc(s['sp']), 'clip = mask of clip_stack.last()', 'the clip field does not come from the mask of the top clip')
             ctx.check(strip_all(f['clip_stride']) == ('param', P_W), R, sk + '|clip_stride', b.loc(s['sp']), 'clip_stride = surface width', 'clip_stride is %s, expected the surface width (clip masks are full-surface)' % fmt(b, f['clip_stride']))
         if 'blend_fn' in f:
@@ -1233,6 +1302,19 @@ def r05_3(ctx):
                               '%s can return without its %s on %s (blocks %s): the matching %s then removes/adds an entry that belongs to an enclosing scope, so pushes and pops no longer pair up' % (short(q), want[0], fld, pth, 'pop' if want[0] == 'push' else 'push'))
 
 
+def top_root(t):
+    """the `x.mask` projection inside a top-clip-mask term (see top_clip_mask_term)"""
+    t = strip_all(t)
+    for _ in range(6):
+        if t[0] in ('ref', 'deref'):
+            t = strip_all(t[1])
+        elif t[0] == 'call' and isinstance(t[1], str) and t[1].split('::')[-1] in ('as_ref', 'as_deref', 'as_mut', 'as_deref_mut') and len(t[2]) == 1:
+            t = strip_all(t[2][0])
+        else:
+            break
+    return t
+
+
 def r05_4(ctx):
     """composite hands the clip stack to choose_blitter"""
     R = 'R05.4'
@@ -1241,7 +1323,7 @@ def r05_4(ctx):
     ok = len(cs) == 1
     if ok:
         a = cs[0][1][2]
-        ok = is_self_field(strip_all(a[1]), 'clip_stack') and a[0] == ('param', P_MASK) and a[4] == ('param', P_BLEND) and is_self_field(a[7], 'width')
+        ok = (is_self_field(strip_all(a[1]), 'clip_stack') or (top_clip_mask_term(a[1]) and is_self_field(strip_all(field_path(top_root(a[1]))[0][2][0]), 'clip_stack'))) and a[0] == ('param', P_MASK) and a[4] == ('param', P_BLEND) and is_self_field(a[7], 'width')
     ctx.check(ok, R, 'draw_target::DrawTarget::composite|choose_blitter args', b.loc(), 'choose_blitter(mask, &self.clip_stack, .., blend, .., self.width)',
               'composite does not pass (mask, &self.clip_stack, blend, self.width) to choose_blitter: the top clip mask / its stride would not be honoured')
 
